@@ -367,6 +367,11 @@ func converge(w *wld) (string, string) {
 	ref := ""
 	for i, n := range w.Nodes {
 		d := n.App.Digest()
+		if all := strings.Join(w.longest, ","); d != all {
+			// what any replica ever applied was committed, hence durable on a quorum: once the faults have stopped every
+			// replica - restarted or not - has applied all of it again
+			return "replica-ends-without-what-was-applied", fmt.Sprintf("after healing, restarting every replica, delivering every message and 12 rounds of time-outs/heartbeats, node %d has applied [%s]; [%s] had been applied before", n.ID, d, all)
+		}
 		if i == 0 {
 			ref = d
 		} else if d != ref {
@@ -429,6 +434,23 @@ func directed() map[string][]event {
 	// the leader changes while the follower still lags behind the compacted log
 	h["lagging-follower-then-leader-change"] = append(append([]event{}, lag...),
 		event{Kind: "crash", Node: 1}, event{Kind: "timeout", Node: 2}, event{Kind: "drain"}, event{Kind: "propose", Node: 2, Arg: 3}, event{Kind: "drain"})
+	// plain restarts (no snapshot anywhere): a replica that comes back must be handed every position again - its state
+	// machine lives in memory - and continue where the others are
+	base := []event{{Kind: "timeout", Node: 1}, {Kind: "drain"}, {Kind: "propose", Node: 1, Arg: 1}, {Kind: "drain"}}
+	h["follower-restarts-between-two-commits"] = append(append([]event{}, base...),
+		event{Kind: "crash", Node: 2}, event{Kind: "propose", Node: 1, Arg: 2}, event{Kind: "drain"}, event{Kind: "restart", Node: 2}, event{Kind: "drain"},
+		event{Kind: "propose", Node: 1, Arg: 3}, event{Kind: "drain"})
+	h["leader-restarts-and-follows"] = append(append([]event{}, base...),
+		event{Kind: "crash", Node: 1}, event{Kind: "timeout", Node: 2}, event{Kind: "drain"}, event{Kind: "propose", Node: 2, Arg: 2}, event{Kind: "drain"},
+		event{Kind: "restart", Node: 1}, event{Kind: "drain"}, event{Kind: "propose", Node: 2, Arg: 3}, event{Kind: "drain"})
+	h["every-replica-restarts"] = append(append([]event{}, base...),
+		event{Kind: "propose", Node: 1, Arg: 2}, event{Kind: "drain"},
+		event{Kind: "crash", Node: 1}, event{Kind: "crash", Node: 2}, event{Kind: "crash", Node: 3})
+	// the same with a local snapshot in the middle of what was applied: snapshot + the rest of the log
+	h["every-replica-restarts-after-a-snapshot"] = append(append([]event{}, base...),
+		event{Kind: "snapshot", Node: 1}, event{Kind: "snapshot", Node: 2}, event{Kind: "snapshot", Node: 3},
+		event{Kind: "propose", Node: 1, Arg: 2}, event{Kind: "drain"},
+		event{Kind: "crash", Node: 1}, event{Kind: "crash", Node: 2}, event{Kind: "crash", Node: 3})
 	return h
 }
 
